@@ -77,9 +77,11 @@ VARIABLES cfg,     \* [pv: protocol version, sks: keyspace of the statement, cks
           act      \* last action
 vars == <<cfg, plan, sent, srv, queue, final, pool, unprep, timer, free, hi, rid, ridn, lc, stop, act>>
 
-\* (speculative executions are explored with the connection keyspace "ks" and the id spaces 0 / 1 only)
+\* (speculative executions are explored with statement and connection keyspace "ks" and the shrunk id spaces only: with
+\*  ids not observed, whether _on_timeout finds a handler of this future on _connection under a _req_id that was
+\*  allocated on ANOTHER connection is a coincidence of two id counters the model does not follow)
 Configs == {c \in [pv : {4, 5}, sks : {"none", "ks"}, cks : {"none", "ks", "ks2"}, ids : {0, 1, 2}, spec : {0, 1}] :
-                c.spec = 1 => (c.cks = "ks" /\ c.ids \in {0, 1})}
+                c.spec = 1 => (c.sks = "ks" /\ c.cks = "ks" /\ c.ids \in {1, 2})}
 
 Exec(h) == [h |-> h, kind |-> "EXECUTE", q |-> "id", ks |-> "none"]
 \* same query text; the keyspace travels in the PREPARE iff the protocol carries it (v5)
